@@ -319,13 +319,26 @@ def gen_ifc_design(rng):
     else:
       terms = f"(s.ifc{sub(ix)}.msg ^ {(n * 7) % (1 << w)})"
     L.append(f"      s.ifc{sub(ix)}.val @= {terms} + K")
-  L += ["class XTop(Component):", "  def construct(s):", f"    T = mk_bits({w})", f"    s.ifc = {nest('XIfc(T)', idims)}"]
+  # the leaf also has plain multi-dimensional port lists that the parent reads and writes inside an update block
+  ppd = rng.choice([[2], [2, 3], [3, 2], [2, 2]])
+  L.insert(L.index("    @update"), f"    s.pin = {nest('InPort(T)', ppd)}; s.pout = {nest('OutPort(T)', ppd)}")
+  for q, px in enumerate(idxs(ppd)):
+    L.append(f"      s.pout{sub(px)} @= s.pin{sub(px)} ^ {(q * 5 + 3) % (1 << w)}")
+  L += ["class XTop(Component):", "  def construct(s):", f"    T = mk_bits({w})", f"    s.ifc = {nest('XIfc(T)', idims)}", "    s.px = InPort(T)",
+        f"    s.paux = {nest('OutPort(T)', (cdims or []) + ppd)}"]
+  pblk = []
+  for cx in (idxs(cdims) if cdims else [()]):
+    for q, px in enumerate(idxs(ppd)):
+      pblk.append(f"      s.leaf{sub(cx)}.pin{sub(px)} @= s.px + {(len(pblk) * 3 + 1) % (1 << w)}")
+      pblk.append(f"      s.paux{sub(cx)}{sub(px)} @= s.leaf{sub(cx)}.pout{sub(px)}")
   if cdims:
     L.append("    s.leaf = " + nest("XLeaf(T, 1)", cdims).replace("XLeaf(T, 1)", "XLeaf(T, 1)"))
     L.append(f"    s.aux = {nest('OutPort(T)', cdims + idims)}")
   else:
     L.append("    s.leaf = XLeaf(T, 2)")
   first = True
+  behavioural = rng.random() < 0.5
+  blk = []
   for cx in (idxs(cdims) if cdims else [()]):
     for ix in idxs(idims):
       leaf = f"s.leaf{sub(cx)}.ifc{sub(ix)}"
@@ -335,8 +348,15 @@ def gen_ifc_design(rng):
       if first:
         L.append(f"    s.ifc{sub(ix)}.val //= {leaf}.val")
       if cdims:
-        L.append(f"    s.aux{sub(cx)}{sub(ix)} //= {leaf}.val")
+        if behavioural:
+          blk.append(f"      s.aux{sub(cx)}{sub(ix)} @= {leaf}.val + {len(blk) % 5}")      # the same element read inside an update block
+        else:
+          L.append(f"    s.aux{sub(cx)}{sub(ix)} //= {leaf}.val")
     first = False
+  if blk:
+    L += ["    @update", "    def up_aux():"] + blk
+  L += ["    @update", "    def up_pin():"] + [x for x in pblk if ".pin" in x.split("@=")[0]]
+  L += ["    @update", "    def up_paux():"] + [x for x in pblk if ".paux" in x.split("@=")[0] or "s.paux" in x.split("@=")[0]]
   return "\n".join(L) + "\n"
 
 
